@@ -13,6 +13,9 @@ import PyrollModel.Impl
     class: value of the implementations, else `root_hook_fallback`, else AttributeError; `setattr`   (`evalSet`)
   * `Unit.OutProfile.root_hook_fallback`     : the last sub-unit's out profile if there are sub-units, else the in profile
   * `Unit.solve` return                      : `Profile(**public entries of out_profile.__dict__)`, then the post-processors in a chain
+  * the object handed to `solve`             : a `HookHost` with explicit values (`__dict__`) AND a hook cache
+    (`__cache__`, filled by every READ of a derived hook on the object); `Unit.Profile.__init__` reads
+    `template.__dict__` only                                                        (`Obj`, `Obj.template`, `runObj`)
 
   The model describes the state after the LAST iteration of `solve` (a fixed point): what the hook implementations
   returned in that iteration is data (`inImpl`, `outImpl` : name ↦ value, absent = every implementation returned None).
@@ -41,6 +44,25 @@ def set : Dict K V → K → V → Dict K V
 
 /-- the entries a `Unit.Profile` copies from its template: names not starting with "_" -/
 def pub (priv : K → Bool) (d : Dict K V) : Dict K V := d.filter fun p => !priv p.1
+
+/-! ### the object handed to `solve` -/
+
+/-- a profile object as its holder sees it: the explicit values (`__dict__`, private entries included) and the hook
+    cache (`__cache__`: the result of every derived hook that was READ on the object, e.g. `equivalent_height`) -/
+structure Obj (K V : Type) where
+  dict : Dict K V
+  cache : Dict K V
+
+/-- python `a | b` on dicts -/
+def union (a : Dict K V) : Dict K V → Dict K V
+  | [] => a
+  | (k, v) :: r => union (set a k v) r
+
+/-- `HookHost.__attrs__` = `__dict__ | __cache__`: what `repr` shows of the object — NOT what is handed over -/
+def Obj.attrs (o : Obj K V) : Dict K V := union o.dict o.cache
+
+/-- the dict `Unit.Profile.__init__(unit, template)` copies from: `template.__dict__` (`expectedProfileInit`) -/
+def Obj.template (o : Obj K V) : Dict K V := o.dict
 
 /-! ### `evaluate_and_set_hooks` -/
 
@@ -153,6 +175,10 @@ def runList (hooks : List (String × K)) (priv : K → Bool) : List (UnitT K V) 
       | .error e => .error e
       | .ok rs => .ok (r :: rs)
 end
+
+/-- `u.solve(o)` on an object: `init_solve` builds the in and out profile with `Unit.Profile.__init__(self, o)` -/
+def runObj (hooks : List (String × K)) (priv : K → Bool) (u : UnitT K V) (o : Obj K V) : Except K (Solved K V) :=
+  run hooks priv u o.template
 
 /-! ### the shape of the source the definitions above mirror (compared with `Gen.C06.*` by `C06.skeleton_certificate`) -/
 
